@@ -35,7 +35,9 @@ def main():
     a = ap.parse_args()
     d = os.path.abspath(a.dir)
     meta = json.load(open(os.path.join(d, "meta.json")))
-    checks = a.checks.split(",") if a.checks else [meta["property"]]
+    # `also_checks` (meta.json): a change seeded under one property whose mechanism is another property's business
+    # (e.g. C01-17, iteration entries that alias the store: C12) is also run against that check
+    checks = a.checks.split(",") if a.checks else [meta["property"]] + list(meta.get("also_checks", []))
     patch = os.path.join(d, "patch.diff")
     env = dict(os.environ)
     wt = None
